@@ -608,7 +608,14 @@ fn gen_local_id_body(rng: &mut Rng) -> Vec<u8> {
     match rng.below(4) {
         0 => {
             b.push(0);
-            let s = if rng.chance(1, 6) { gen_ident(rng, 1).repeat(64) } else { gen_ident(rng, 64) };
+            let mut s = if rng.chance(1, 6) { gen_ident(rng, 1).repeat(64) } else { gen_ident(rng, 64) };
+            // near-misses of the allowed character set: the bytes adjacent to '0'..'9', 'A'..'Z',
+            // 'a'..'z' and '_' (e.g. '/', ':', '@', '[', '\\', ']', '^', '`', '{'), space, '-', '.', DEL, high bytes
+            if rng.chance(1, 4) {
+                const NEAR: &[u8] = b"/:@[\\]^`{ -.\x7f\x80\xff\x00";
+                let i = rng.usize_below(s.len());
+                s[i] = *rng.pick(NEAR);
+            }
             write_size(s.len(), &mut b);
             b.extend(s);
         }
